@@ -11,14 +11,22 @@ VARIABLE S
 Init == S \in UNION {InitStates(c, "mc", <<>>) : c \in Range(Family)}
 
 \* simulate_until_max_time: events strictly before the horizon
-\* simulate_until_max_customers: events while the method's counter is below the target
-Running == IF S.cfg.stop = "time" THEN MinDate(S) < S.cfg.T
+\* simulate_until_max_time in one or several calls (cfg.splits = horizons of the earlier calls, S.pz = index of the
+\* call in progress); simulate_until_max_customers: events while the method's counter is below the target
+Horizon == IF S.pz <= Len(S.cfg.splits) THEN S.cfg.splits[S.pz] ELSE S.cfg.T
+Running == IF S.cfg.stop = "time" THEN MinDate(S) < Horizon
            ELSE IF S.cfg.stop = "deadlock" THEN ~S.dl /\ MinDate(S) < S.cfg.T
            ELSE P!Counter(S.cfg, S) < S.cfg.maxc /\ MinDate(S) < INF
 
+\* the call in progress returns (nothing is due before its horizon) and the next call starts
+PauseAct == /\ S.cfg.stop = "time"
+            /\ S.pz <= Len(S.cfg.splits)
+            /\ MinDate(S) >= S.cfg.splits[S.pz]
+            /\ S' = [PauseStep(S, S.cfg.splits[S.pz]) EXCEPT !.pz = @ + 1]
+
 Next == /\ Ok(S)
-        /\ Running
-        /\ S' \in Event(S)
+        /\ \/ Running /\ S' \in Event(S)
+           \/ PauseAct
 
 Spec == Init /\ [][Next]_S
 
@@ -49,25 +57,26 @@ Inv_C10 == Ok(S) => P!F_C10_inv(S.cfg, S) = {}
 Inv_C11 == Ok(S) => P!F_C11_inv(S.cfg, S) = {}
 Inv_C13 == Ok(S) => P!F_C13_inv(S.cfg, S) = {}
 
-Step_C01 == [][Ok(S') => P!F_C01_step(S.cfg, S, S') = {}]_S
-Step_C02 == [][Ok(S') => P!F_C02_step(S.cfg, S, S') = {}]_S
-Step_C03 == [][Ok(S') => P!F_C03_step(S.cfg, S, S') = {}]_S
-Step_C04 == [][Ok(S') => P!F_C04_step(S.cfg, S, S') = {}]_S
-Step_C12 == [][Ok(S') => P!F_C12_step(S.cfg, S, S') = {}]_S
-Step_C05 == [][Ok(S') => P!F_C05_step(S.cfg, S, S') = {}]_S
-Step_C06 == [][Ok(S') => P!F_C06_step(S.cfg, S, S') = {}]_S
-Step_C07 == [][Ok(S') => P!F_C07_step(S.cfg, S, S') = {}]_S
-Step_C08 == [][Ok(S') => P!F_C08_step(S.cfg, S, S') = {}]_S
-Step_C09 == [][Ok(S') => P!F_C09_step(S.cfg, S, S', S.rt) = {}]_S
+Step_C01 == [][Ok(S') /\ S'.ev.kind # "pause" => P!F_C01_step(S.cfg, S, S') = {}]_S
+Step_C02 == [][Ok(S') /\ S'.ev.kind # "pause" => P!F_C02_step(S.cfg, S, S') = {}]_S
+Step_C03 == [][Ok(S') /\ S'.ev.kind # "pause" => P!F_C03_step(S.cfg, S, S') = {}]_S
+Step_C04 == [][Ok(S') /\ S'.ev.kind # "pause" => P!F_C04_step(S.cfg, S, S') = {}]_S
+Step_C12 == [][Ok(S') /\ S'.ev.kind # "pause" => P!F_C12_step(S.cfg, S, S') = {}]_S
+Step_C05 == [][Ok(S') /\ S'.ev.kind # "pause" => P!F_C05_step(S.cfg, S, S') = {}]_S
+Step_C06 == [][Ok(S') /\ S'.ev.kind # "pause" => P!F_C06_step(S.cfg, S, S') = {}]_S
+Step_C07 == [][Ok(S') /\ S'.ev.kind # "pause" => P!F_C07_step(S.cfg, S, S') = {}]_S
+Step_C08 == [][Ok(S') /\ S'.ev.kind # "pause" => P!F_C08_step(S.cfg, S, S') = {}]_S
+Step_C09 == [][Ok(S') /\ S'.ev.kind # "pause" => P!F_C09_step(S.cfg, S, S', S.rt) = {}]_S
 Inv_C18 == Ok(S) => P!F_C18_inv(S.cfg, S, S.dg) = {}
-Step_C18 == [][Ok(S') => P!F_C18_step(S.cfg, S, S') = {}]_S
-Step_C20 == [][Ok(S') => P!F_C20_step(S.cfg, S, S') = {}]_S
+Step_C18 == [][Ok(S') /\ S'.ev.kind # "pause" => P!F_C18_step(S.cfg, S, S') = {}]_S
+Step_C20 == [][Ok(S') /\ S'.ev.kind # "pause" => P!F_C20_step(S.cfg, S, S') = {}]_S
 Inv_C19 == Ok(S) => P!F_C19_inv(S.cfg, S) = {}
-Step_C19 == [][Ok(S') => P!F_C19_step(S.cfg, S, S') = {}]_S
+Step_C19 == [][Ok(S') /\ S'.ev.kind # "pause" => P!F_C19_step(S.cfg, S, S') = {}]_S
+Step_C16 == [][S'.ev.kind = "pause" => P!F_C16_pause(S.cfg, S, S') = {}]_S
 Inv_C17 == Ok(S) => P!F_C17_inv(S.cfg, S, S.gb) = {}
-Step_C17 == [][Ok(S') => P!F_C17_step(S.cfg, S, S') = {}]_S
-Step_C10 == [][Ok(S') => P!F_C10_step(S.cfg, S, S') = {}]_S
-Step_C11 == [][Ok(S') => P!F_C11_step(S.cfg, S, S') = {}]_S
-Step_C13 == [][Ok(S') => P!F_C13_step(S.cfg, S, S') = {}]_S
-Step_C14 == [][Ok(S') => P!F_C14_step(S.cfg, S, S') = {}]_S
+Step_C17 == [][Ok(S') /\ S'.ev.kind # "pause" => P!F_C17_step(S.cfg, S, S') = {}]_S
+Step_C10 == [][Ok(S') /\ S'.ev.kind # "pause" => P!F_C10_step(S.cfg, S, S') = {}]_S
+Step_C11 == [][Ok(S') /\ S'.ev.kind # "pause" => P!F_C11_step(S.cfg, S, S') = {}]_S
+Step_C13 == [][Ok(S') /\ S'.ev.kind # "pause" => P!F_C13_step(S.cfg, S, S') = {}]_S
+Step_C14 == [][Ok(S') /\ S'.ev.kind # "pause" => P!F_C14_step(S.cfg, S, S') = {}]_S
 =============================================================================
